@@ -80,6 +80,11 @@ static void dumpNetAndValues(const char *tag, hlim::Circuit &circuit, const vh::
 		for (size_t i = 0; i < b.inPins.size(); i++)
 			sim.simProcSetInputPin(b.inPins[i], sim::convertToExtended(vh::bitsFromString(st.cycles[c][i])));
 		sim.reevaluate();
+		{ // is the clock's reset asserted at this sample point?
+			auto r = sim.getValueOfReset(b.clock->getClk());
+			bool asserted = r[sim::DefaultConfig::DEFINED] && (r[sim::DefaultConfig::VALUE] == (b.clock->getClk()->getRegAttribs().resetActive == hlim::RegisterAttributes::Active::HIGH));
+			o << "nr " << tag << ' ' << c << ' ' << (asserted ? 1 : 0) << '\n';
+		}
 		o << "nv " << tag << ' ' << c;
 		for (auto *n : net.order) {
 			if (n->getNumOutputPorts() == 0 || sim.outputOptimizedAway({.node = n, .port = 0})) { o << " ?"; continue; }
